@@ -218,6 +218,71 @@ void cm_chain_case(Ctx &c) {
     if (c.want_sample()) c.sample(J().num("first_size", sizes[0]).num("last_size", sizes.back()).num("steps", sizes.size() - 1));
 }
 
+/// Copies of indexes whose NUMBER OF SEGMENTS sits on a block boundary of the succinct directories: a prefix of an irregular
+/// array is located by bisection at which the index has exactly 4096*k segments, and every prefix within a few keys of it whose
+/// segment count is 4096*k-1, 4096*k or 4096*k+1 is built, copy-constructed and copy-assigned, the source destroyed, and the
+/// copy compared with what the source answered (block-wise copy loops have their off-by-one exactly there).
+template<class K, class Idx>
+void cm_mult_case(Ctx &c) {
+    std::vector<K> keys = gen_irregular_keys<K>(c.rng, 50000 + c.rng.below(c.thorough() ? 250000 : 70000));
+    const size_t n = keys.size();
+    auto segs = [&](size_t len) { Idx x(keys.begin(), keys.begin() + len); return x.segments_count(); };
+    c.traits = "copies_at_segment_count_multiple_of_4096";
+    Hasher h; h.add(n); h.add(c.rng.s);
+    c.input_hash = h.h;
+    size_t kmax = segs(n) / 4096;
+    if (kmax == 0) { c.count("mult_cases_too_few_segments"); return; }
+    const size_t target = 4096 * (1 + c.rng.below(kmax));
+    c.dumper = [&]() {
+        Spec s;
+        s.set_one("config", c.cfg.name); s.set_one("case", c.case_idx); s.set_one("target_segments", target);
+        s.set_one("note", "keys_regenerated_from_seed");
+        return s;
+    };
+    c.predump();
+    size_t lo = 1, hi = n; // smallest prefix with at least `target` segments
+    while (hi - lo > 1) { size_t mid = lo + (hi - lo) / 2; (segs(mid) >= target ? hi : lo) = mid; }
+    auto answers = [&](const Idx &x, size_t len) {
+        std::vector<uint64_t> out;
+        Rng qr(777);
+        auto ask = [&](const K &q) { auto r = x.search(q); out.push_back(r.pos); out.push_back(r.lo); out.push_back(r.hi); };
+        for (int i = 0; i < 1500; ++i) ask(keys[qr.below(len)]);
+        for (size_t i = len > 300 ? len - 300 : 0; i < len; ++i) ask(keys[i]);
+        for (size_t i = 0; i < std::min<size_t>(len, 60); ++i) ask(keys[i]);
+        ask(key_maxvalid<K>());
+        out.push_back(x.segments_count()); out.push_back(x.height()); out.push_back(x.size_in_bytes());
+        return out;
+    };
+    uint64_t on_boundary = 0, compared = 0;
+    for (size_t len = hi > 12 ? hi - 12 : 1; len <= std::min(n, hi + 12) && c.violations_in_case < 3; ++len) {
+        std::unique_ptr<Idx> src(new Idx(keys.begin(), keys.begin() + len));
+        size_t sc = src->segments_count();
+        if ((sc + 1) % 4096 > 2) continue; // residues 4095, 0, 1
+        ++on_boundary;
+        auto expected = answers(*src, len);
+        std::unique_ptr<Idx> a, b;
+        if constexpr (std::is_copy_constructible_v<Idx>) a.reset(new Idx(*src));
+        if constexpr (std::is_copy_assignable_v<Idx> && std::is_default_constructible_v<Idx>) { b.reset(new Idx()); *b = *src; }
+        src.reset();
+        churn(c.rng, len * sizeof(K) / 4 + 64);
+        for (auto *x : {a.get(), b.get()}) {
+            if (!x) continue;
+            auto got = answers(*x, len);
+            compared += got.size();
+            if (got != expected) {
+                size_t i = 0;
+                while (i < std::min(got.size(), expected.size()) && got[i] == expected[i]) ++i;
+                c.violation("copy_answers_differ", J().str("operation", x == a.get() ? "copy_construct" : "copy_assign_to_empty").str("when", "segment_count_on_block_boundary")
+                                                       .num("segments", sc).num("keys", len).num("first_differing_answer", i));
+            }
+        }
+    }
+    c.count("copies_at_block_boundary_segment_counts", on_boundary);
+    c.count("answers_compared", compared);
+    c.nontrivial = on_boundary > 0;
+    if (c.want_sample()) c.sample(J().num("target_segments", target).num("prefix", hi).num("indexes_on_boundary", on_boundary));
+}
+
 // ------------------------------------------------------------------------------------------------ multidimensional
 template<uint8_t D, class T, size_t Eps>
 void cm_md_case(Ctx &c) {
@@ -319,6 +384,7 @@ void cm_dyn_case(Ctx &c) {
 }
 
 #define VF_CM_STATIC(NAME, K, ...) VF_REGISTER(std::string("cm/") + NAME, (&::vf::cm_static_case<K, __VA_ARGS__>), 1.0)
+#define VF_CM_MULT(NAME, K, ...) VF_REGISTER(std::string("cm/") + NAME + "#mult", (&::vf::cm_mult_case<K, __VA_ARGS__>), 0.012)
 #define VF_CM_CHAIN(NAME, K, ...) VF_REGISTER(std::string("cm/") + NAME + "#chain", (&::vf::cm_chain_case<K, __VA_ARGS__>), 0.016)
 #define VF_CM_MD(D, T, E) VF_REGISTER(std::string("cm/md,d" #D ",") + ::vf::KT<T>::name() + ",e" #E, (&::vf::cm_md_case<D, T, E>), 1.0)
 #define VF_CM_DYN(NAME, K, V, ...) VF_REGISTER(std::string("cm/dyn,") + NAME, (&::vf::cm_dyn_case<K, V, __VA_ARGS__>), 1.0)
